@@ -16,16 +16,20 @@ THEOREMS = ["C04_update_reconstructs_B", "C04_requests_exactly_the_missing_chunk
             # machine-checked link between the byte-level component models and the chunk-level model
             "C04_link_scan", "C04_link_validate_data", "C04_link_missing_range", "C04_link_missing_range_abs",
             "C04_link_placed_is_place", "C04_link_place_single", "C04_link_place_multipart_partial",
-            "C04_link_copy", "C04_link_reset_failed", "C04_link_parse_prefix", "C04_link_header_fetch"]
+            "C04_link_copy", "C04_link_reset_failed", "C04_link_parse_prefix", "C04_link_header_fetch",
+            # composition: multipart lift, equivalence up to non-valid extents, the byte-level run
+            "C04_link_place_multipart", "C04_loop_respects_eqv", "C04_link_copy_eqv", "C04_plain_server_serves",
+            "C04_byte_level_reconstructs_B"]
 ASSUMPTIONS = [
-    "chunk-level model (Dl/Update.v): each library call is represented by its per-chunk effect. Proved links to the byte-level "
-    "component models (Dl/UpdateLink*.v, theorems C04_link_*): validity scan and final data validation (Read/Scan.v, C09), range "
-    "computation (Dl/Range.v, C10), placement of a single-range response (Dl/DlWrite.v, C05; fread reading of extents), copy from the "
-    "old file (Dl/Copy.v, C08; hypotheses: no source extent cut by the end of the source file, no write behind the end of the target "
-    "file), failed->missing reset, header fetch vs the header reader (Format/ParseImpl.v, C13: the reader depends on the first lead + "
-    "header bytes only, which are what the fetch requests). Multipart placement only up to the two confinement facts proved for "
-    "dl_write_range alone. NOT proved: the composition of the linked steps into one byte-level run (needs a file-length invariant "
-    "for the download model and a byte-level model of the ra_index loop); tied by the real zckdl runs",
+    "chunk-level model (Dl/Update.v): each library call is represented by its per-chunk effect. Every step is linked by a theorem "
+    "to the byte-level component model of its vertical (Dl/UpdateLink*.v, C04_link_*: scan C09, range computation C10, placement "
+    "single-range and multipart C05, copy C08, header reader C13), and the steps are composed: C04_byte_level_reconstructs_B runs "
+    "the byte-level models in zck_dl.c's order (Dl/UpdateByte*.v) and proves target == B. Modelling choices of that composition: "
+    "every request uses a fresh zckDL (that a zck_dl_reset one behaves the same is C05_session / retry_place_*); the range index of a "
+    "limited request is taken as the first entries of Session.missing_ridx (same chunks as Range.missing_range: C04_link_missing_range); "
+    "the ra_index arithmetic is Update.advance; the header fetch is one write of B's first max(89, header) bytes; old files whose "
+    "extents are cut by the end of the file are excluded (src_complete); Update.fetch_header's write_prefix itself (header shorter than "
+    "the probe) is not linked - the composition starts from the fetched file instead",
     "the checksum functions are arbitrary functions; every conclusion that needs injectivity is stated as 'or two different "
     "byte strings with the same chunk checksum exist'",
     "B is a valid file (wf_new), the server returns the requested extents of B and answers 200 iff the request has more ranges "
